@@ -165,6 +165,17 @@ def run_history(chi_sym, mk, seq, opmap):
                 if observable(m) != orig_obs:
                     return ('copy.separate', 'applying %s to a copy changed the original' % on, done)
             m = c            # continue the history on the copy
+        if name == 'simulate' and ghostsim.RUNS:
+            # the solver that ran this call held exactly the values of this call, parameter by parameter (whatever was simulated, rebuilt or
+            # copied before): states first, then constants, in the published order
+            snap = ghostsim.RUNS[-1]['snapshot']
+            xs = np.arange(1, m.n_parameters() + 1, dtype=float) * 0.5
+            st = mech.expected_parameter_names(m._model)[0]
+            for k_, nm_ in enumerate(m._parameter_names):
+                holder = snap['state'] if k_ < len(st) else snap['constants']
+                got = None if holder is None else holder.get(nm_)
+                if got is None or abs(float(got) - xs[k_]) > 1e-12:
+                    return ('solver.holds', 'simulate(x): the solver ran with %s = %s, the call assigns x[%d] = %s to it' % (nm_, got, k_, xs[k_]), done)
         if not name.startswith(('out_', 'rename_out')):
             # only an output selection changes the selected outputs: every other call keeps them, in order and under their published names,
             # as far as the variables still exist in the model (a change of the route of administration removes / adds the dose compartment)
@@ -179,7 +190,7 @@ def run_history(chi_sym, mk, seq, opmap):
     return None
 
 
-PRED = ['regimen.applied', 'tables.consistent', 'model.surgery', 'flags.consistent', 'outputs.kept', 'copy.equal', 'copy.separate', 'copy.regimen.applied', 'copy.tables.consistent',
+PRED = ['regimen.applied', 'tables.consistent', 'model.surgery', 'flags.consistent', 'outputs.kept', 'solver.holds', 'copy.equal', 'copy.separate', 'copy.regimen.applied', 'copy.tables.consistent',
         'copy.model.surgery', 'copy.flags.consistent']
 
 
